@@ -228,9 +228,13 @@ def evaluate_z3_re_loop(
     if expr.decl().kind() != z3.Z3_OP_RE_LOOP:
         return Nothing
 
+    # The upper bound is optional: `(_ re.loop 2)` means "at least two repetitions".
+    params = expr.params()
+    bounds = f"{params[0]},{params[1]}" if len(params) > 1 else f"{params[0]},"
+
     return Some(
         construct_result(
-            lambda args: f"({args[0]}){{{expr.params()[0]},{expr.params()[1]}}}",
+            lambda args: f"({args[0]}){{{bounds}}}",
             children_results,
         )
     )
